@@ -5,7 +5,7 @@ from common import *
 from gen import *
 from sessions import *
 
-CLASSES = {"a": "a", "s": " ", "q": '"', "b": "\\", "t": "~", "l": "é", "w": "中", "x": "\U0001F600", "c": "́"}
+CLASSES = {"a": "a", "s": " ", "q": '"', "b": "\\", "t": "~", "l": "é", "w": "中", "x": "\U0001F600", "c": "́", "f": "ａ"}
 POOLS = {
     "a": "abcxyzABCXYZ0123456789_", "s": " ", "q": "\"'`", "b": "\\/|", "t": "~!@#$%^&*(){}[]<>?;:,.-=+",
     "l": "éèüñçßøåÆÐþÿ¡¿«»°±", "w": "中文日本語한국어テスト你好世界", "x": "\U0001F600\U0001F680\U0001F4A9\U0001D11E\U00020000\U0001F1EB",
@@ -38,11 +38,19 @@ def project(cs, evs):
             started[s] = 0
         elif ev == "read" and not e["fault"]:
             # the characters delivered by this read (reads carry whole characters; the final Enter is not text)
-            b = bytes(e["bytes"])
+            # (a read may end inside a character: it counts as typed when its last byte has arrived)
+            b = started.get(("pend", s), b"") + bytes(e["bytes"])
             if b.endswith(b"\r"):
                 b = b[:-1]
-            if b:
-                out.append(({"ev": "typed", "text": [ord(c) for c in b.decode("utf-8")]}, e))
+            done = b""
+            while b:
+                n = 1 if b[0] < 0x80 else 2 if b[0] < 0xE0 else 3 if b[0] < 0xF0 else 4
+                if len(b) < n:
+                    break
+                done, b = done + b[:n], b[n:]
+            started[("pend", s)] = b
+            if done:
+                out.append(({"ev": "typed", "text": [ord(c) for c in done.decode("utf-8")]}, e))
         elif ev == "wait":
             out.append(({"ev": "wait", "line": e["line"]}, e))
         elif ev == "return":
@@ -69,6 +77,12 @@ def run(rep, tier, seed):
         strings.append("".join(rng.choice(POOLS[rng.choice(list(POOLS))]) for _ in range(n)))
     # a combining mark cannot start the text on a terminal, but it can be typed: keep those too
     rng.shuffle(strings)
+    # pastes longer than the library's read buffer (1024 bytes): the rest is picked up by later reads, also by the ones
+    # that wait for the terminal's cursor report
+    longs = []
+    for _ in range(6 if tier == "quick" else 60):
+        n = rng.randint(1100, 3200)
+        longs.append("".join(rng.choice(POOLS[rng.choice("aaaaastlw")]) for _ in range(n)))
     cases = []
     per_case = 60
     ci = 0
@@ -84,11 +98,18 @@ def run(rep, tier, seed):
             cs = {"id": "c02-%s-%d" % (mode, ci), "inputrc": "\n".join(lines) + "\n", "w": rng.choice([80, 20, 200]), "h": 24,
                   "prompt": rng.choice(["> ", ""]), "sessions": [], "wrap": "none"}
             for s in chunk:
-                style = rng.choice(["rune", "paste", "groups"])
+                style = rng.choice(["rune", "paste", "groups", "bytes", "bytegroups"])
                 if style == "rune":
                     sess = [keys(ch) for ch in s]
                 elif style == "paste":
                     sess = [keys(s)]
+                elif style in ("bytes", "bytegroups"):
+                    # reads that end inside a character
+                    bs, sess, i = s.encode(), [], 0
+                    while i < len(bs):
+                        k = 1 if style == "bytes" else rng.randint(1, 3)
+                        sess.append(keys(bs[i:i + k]))
+                        i += k
                 else:
                     sess, i = [], 0
                     while i < len(s):
@@ -99,6 +120,11 @@ def run(rep, tier, seed):
                 cs["sessions"].append(sess)
             cases.append(cs)
         ci += 1
+    for li, s in enumerate(longs):
+        for mode in ("emacs", "vi"):
+            lines = (["set editing-mode vi"] if mode == "vi" else []) + ["set convert-meta off", "set input-meta on", "set output-meta on"]
+            cases.append({"id": "c02L-%s-%d" % (mode, li), "inputrc": "\n".join(lines) + "\n", "w": 200, "h": 50, "prompt": "> ", "wrap": "none",
+                          "sessions": [[keys(s), keys(b"\r")]], "hangms": 60000})
     # ASCII texts under all 16 combinations of the meta variables
     asc = [s for s in strings if all(ord(ch) < 128 for ch in s)][:120]
     for bits in range(16):
